@@ -32,27 +32,6 @@ theorem exclusive_excludes {L : Type} [DecidableEq L] (rank : L → Nat) (pref :
     (hij : i ≠ j) (hheld : (l, true) ∈ (s.thr i).held) : ∀ p ∈ (s.thr j).held, p.1 ≠ l :=
   excl_reach (excl_init fun k hk => (hinit k hk).1) hreach i j l hi hj hij hheld
 
-/-- which locks prefer writers: `iwkv->rwl` and `db->rwl` are created with
-    `PTHREAD_RWLOCK_PREFER_WRITER_NONRECURSIVE_NP`; allocator and file locks have default attributes -/
-def prefLk : Lk → Bool
-  | .store => true
-  | .db _ => true
-  | _ => false
-
-/-- the system of `n` client threads (and background threads) where thread `i` makes the calls `sess i`,
-    each with a lock-event sequence of its call automaton -/
-def initSys (n : Nat) (sess : Nat → List (Kind × List Ev)) : Sys Lk :=
-  { n := n, thr := fun i => { prog := sessionActs (sess i), held := [], sleeping := false, units := 0 } }
-
-theorem countOnly_wkActs (k : Kind) : CountOnly (wkActs k) := by
-  intro a ha
-  cases k <;> simp [wkActs] at ha <;> (try rcases ha with h | h) <;> simp_all
-
-theorem accepts_ordered {k : Kind} {tr : List Ev} (h : accepts k tr = true) : runHeld [] tr = some [] := by
-  simp only [accepts, Bool.and_eq_true] at h
-  have := h.1.1.1
-  simpa [ordered] using this
-
 /-- programs built from accepted calls respect the declared order
     worker mutex → store → database → allocator → file → log → spin locks -/
 theorem session_ordered (calls : List (Kind × List Ev)) (h : ∀ c ∈ calls, accepts c.1 c.2 = true) :
@@ -133,21 +112,30 @@ theorem atomic_effects_linearize {S X : Type} (c0 c1 : Atomic.Cfg S X) (hinit : 
 
 /-- non-vacuity of the atomicity theorem: two threads, a two-step increment under the write lock against a
     reader of another database; the start satisfies the hypotheses and the fine-grained semantics can move. -/
-def exInc : Atomic.Call Nat Nat := ⟨0, true, [fun p => (p.1, p.1), fun p => (p.2 + 1, p.2)]⟩
-def exRd : Atomic.Call Nat Nat := ⟨1, false, [fun p => (p.1, p.1)]⟩
-def exCfg : Atomic.Cfg Nat Nat :=
-  ⟨2, fun _ => 5, fun _ => 5, fun i => if i = 0 then ⟨[exInc], none, 0⟩ else ⟨[exRd], none, 0⟩⟩
-
-example : Atomic.Initial exCfg ∧ Atomic.ReadersReadOnly exCfg ∧ ∃ c1, Atomic.CStep exCfg c1 := by
-  refine ⟨⟨fun i => by by_cases h : i = 0 <;> simp [exCfg, h], rfl⟩, ?_, ?_⟩
+example : Atomic.Initial Atomic.exCfg ∧ Atomic.ReadersReadOnly Atomic.exCfg ∧ ∃ c1, Atomic.CStep Atomic.exCfg c1 := by
+  refine ⟨⟨fun i => by by_cases h : i = 0 <;> simp [Atomic.exCfg, h], rfl⟩, ?_, ?_⟩
   · intro i k hk hex
     by_cases h : i = 0
-    · simp [exCfg, h] at hk; subst hk; simp [exInc] at hex
-    · simp [exCfg, h] at hk; subst hk
-      intro m hm p; simp [exRd] at hm; subst hm; rfl
-  · refine ⟨_, Atomic.CStep.begin 0 exInc [] (by decide) (by simp [exCfg]) (by simp [exCfg]) ?_⟩
+    · simp [Atomic.exCfg, h] at hk; subst hk; simp [Atomic.exInc] at hex
+    · simp [Atomic.exCfg, h] at hk; subst hk
+      intro m hm p; simp [Atomic.exRd] at hm; subst hm; rfl
+  · refine ⟨_, Atomic.CStep.begin 0 Atomic.exInc [] (by decide) (by simp [Atomic.exCfg]) (by simp [Atomic.exCfg]) ?_⟩
     intro j _ _ k hk
-    by_cases h : j = 0 <;> simp [exCfg, h] at hk
+    by_cases h : j = 0 <;> simp [Atomic.exCfg, h] at hk
+
+/-- non-vacuity of `accepted_calls_no_deadlock`: a session "open a cursor, read, close it, then sync" consists of
+    accepted calls and keeps the cursor discipline -/
+example :
+    let sess : List (Kind × List Ev) :=
+      [(.copen 1, [.acq .wk true, .rel .wk, .acq .store false, .acq (.db 1) false, .acq (.spin 1) true, .rel (.spin 1),
+                   .rel (.db 1), .rel .store]),
+       (.reader 1, [.acq .store false, .acq (.db 1) false, .acq .file false, .rel .file, .rel (.db 1), .rel .store]),
+       (.cclose 1, [.acq .store false, .acq (.db 1) true, .acq (.spin 1) true, .rel (.spin 1), .rel (.db 1), .rel .store,
+                    .acq .wk true, .rel .wk]),
+       (.excl, [.acq .wk true, .wait .wk, .acq .store true, .rel .wk, .acq .log true, .rel .log, .rel .store])]
+    (∀ c ∈ sess, accepts c.1 c.2 = true) ∧ UnitsOk 0 (sessionActs sess) := by
+  refine ⟨by decide, ?_⟩
+  simp [sessionActs, toActs, toActsAux, wkActs, UnitsOk]
 
 /-- non-vacuity: the recorded shape of a put, of a cursor open and of an exclusive sync are accepted,
     and a put that would take the allocator while holding the file lock is not -/
